@@ -57,6 +57,7 @@ Independent(e) ==
                   (IF h.n # e.n THEN {"C18: header states block size " \o ToString(h.n)} ELSE {}) \cup
                   (IF (h.strategy = 1) # e.x.variable THEN {"C18: blocking-strategy bit does not match the kind of offset set last"} ELSE {}) \cup
                   (IF h.num.hi # e.x.num_hi \/ h.num.lo # e.x.num_lo THEN {"C18: coded number differs from the offset set last"} ELSE {}) \cup
+                  (IF e.x.rate >= 0 /\ ~RateAgrees(h, e.x.rate) THEN {"C18: the header's sample-rate code does not state the rate given (" \o ToString(e.x.rate) \o ")"} ELSE {}) \cup
                   (IF ~h.num.canon THEN {"C02: coded number not in shortest form"} ELSE {})
              : h \in {ParseHeader(b, 0, e.bps)} }
   ELSE IF e.kind = "frame" THEN
